@@ -111,6 +111,21 @@ def handle : List String → Option String
       let po ← po.toNat?
       let r ← bufOps { rest := [], po := po, exifLength := 0, buffered := true } ops
       pure (s!"pos={r.pos} len={r.tags.length} " ++ ",".intercalate (r.tags.map fun t => toString t.off))
+  | "exif.rawops" :: exl :: hex :: ops => do
+      -- the two stream primitives on a plain reader: op > 0 fastRead, op <= 0 discard; per op "bytes:err:po"
+      let exl ← exl.toNat?; let b ← parseHex hex
+      let step := fun (acc : R × List String) (o : String) =>
+        match o.toInt? with
+        | none => acc
+        | some k =>
+          if k > 0 then
+            let rd := fastRead acc.1 k.toNat
+            (rd.r, acc.2 ++ [s!"{hx rd.buf}:{errName rd.err}:{rd.r.po}"])
+          else
+            let (r', e) := discard acc.1 (-k)
+            (r', acc.2 ++ [s!"-:{errName e}:{r'.po}"])
+      let res := ops.foldl step ({ rest := b, po := 0, exifLength := exl, buffered := false }, [])
+      pure (" ".intercalate res.2)
   | ["exif.trim", hex] => do let b ← parseHex hex; pure (hx (trimNUL b))
   | ["exif.struint", hex] => do let b ← parseHex hex; pure (toString (parseStrUint b))
   | _ => none
